@@ -68,6 +68,9 @@ type rwWorld struct {
 	gateAt    int // loop refresh number (1-based) that parks in Refresh until released; 0 = none
 	gateHit   chan struct{}
 	gateGo    chan struct{}
+	finalGate bool // the final refresh parks in Refresh until finalGo is closed
+	finalHit  chan struct{}
+	finalGo   chan struct{}
 	overrun   bool
 }
 
@@ -87,6 +90,8 @@ func newRWWorld(loopOuts []string, finalOut string, durOf func(int) time.Duratio
 		errs:     map[int]error{},
 		gateHit:  make(chan struct{}, 1),
 		gateGo:   make(chan struct{}),
+		finalHit: make(chan struct{}, 1),
+		finalGo:  make(chan struct{}),
 	}
 }
 
@@ -182,9 +187,10 @@ func (w *rwWorld) Refresh(ctx context.Context) error {
 	w.nref++
 	ev.K = w.nref
 	ev.Out = "nil"
-	parkHere := false
+	parkHere, parkFinal := false, false
 	if ev.Who == "final" {
 		ev.Out = w.finalOut
+		parkFinal = w.finalGate
 	} else {
 		w.nLoop++
 		if w.nLoop <= len(w.loopOuts) {
@@ -202,6 +208,16 @@ func (w *rwWorld) Refresh(ctx context.Context) error {
 	}
 	w.log = append(w.log, ev)
 	w.mu.Unlock()
+	if parkFinal {
+		select {
+		case w.finalHit <- struct{}{}:
+		default:
+		}
+		select {
+		case <-w.finalGo:
+		case <-time.After(watchdog):
+		}
+	}
 	if parkHere {
 		w.gateHit <- struct{}{}
 		select {
@@ -257,6 +273,24 @@ func (w *rwWorld) tryTick() bool {
 	}
 }
 
+// offerTicks keeps offering the tick of the pending timer for d.  A delivery
+// is definite (the worker was parked in its select and took it); the worker
+// then gets a moment to show what it does with it.
+func (w *rwWorld) offerTicks(d time.Duration) bool {
+	end := time.Now().Add(d)
+	for spin := 0; time.Now().Before(end); spin++ {
+		if w.tryTick() {
+			select {
+			case <-w.afterCh:
+			case <-time.After(300 * time.Millisecond):
+			}
+			return true
+		}
+		pause(spin)
+	}
+	return false
+}
+
 func (w *rwWorld) deliverTick() bool {
 	deadline := time.Now().Add(watchdog)
 	for spin := 0; ; spin++ {
@@ -279,8 +313,15 @@ type rwScenario struct {
 	LoopOuts []string
 	FinalOut string
 	Mode     string
-	Grace    time.Duration
-	DurOf    func(int) time.Duration
+	// LoopFirst: in mode "overlap" with RefreshOnShutdown the loop refresh in
+	// flight is released while the final refresh is still in flight (else
+	// after Shutdown has returned).
+	LoopFirst bool
+	// Window: how long the final refresh is held inside Refresh while the
+	// driver keeps offering the tick of the pending timer.
+	Window time.Duration
+	Grace  time.Duration
+	DurOf  func(int) time.Duration
 }
 
 type rwResult struct {
@@ -299,6 +340,7 @@ func runRefresh(sc rwScenario) rwResult {
 	if sc.Mode == "overlap" && len(sc.LoopOuts) > 0 {
 		w.gateAt = len(sc.LoopOuts)
 	}
+	w.finalGate = sc.ROS && sc.Window > 0
 	worker := service.NewRefreshWorker(&service.RefreshWorkerConfig{
 		Clock:              w,
 		ContextConstructor: w,
@@ -363,15 +405,11 @@ func runRefresh(sc rwScenario) rwResult {
 		w.mu.Unlock()
 		close(retCh)
 	}()
-	select {
-	case <-retCh:
-	case <-time.After(watchdog):
-		return w.snapshot("Shutdown did not return")
-	}
-	if panicked {
-		return w.snapshot(fmt.Sprintf("Shutdown panicked: %v", pv))
-	}
-	if gated {
+	releaseLoop := func() {
+		if !gated {
+			return
+		}
+		gated = false
 		close(w.gateGo)
 		// The refresh in flight finishes: error handling, schedule, After (in
 		// the current code; an implementation that looks at done first and
@@ -381,21 +419,39 @@ func runRefresh(sc rwScenario) rwResult {
 		case <-time.After(2 * time.Second):
 		}
 	}
+	if w.finalGate {
+		// The window: the final refresh is held inside Refresh.  A correct
+		// Shutdown has closed done before, so the loop has left (or will
+		// leave) its select through the done branch and can never take the
+		// tick that is offered now; a loop that is still armed takes it and
+		// refreshes once more.
+		select {
+		case <-w.finalHit:
+			if sc.LoopFirst {
+				releaseLoop()
+			}
+			w.offerTicks(sc.Window)
+			close(w.finalGo)
+		case <-retCh:
+			// Shutdown returned without a final refresh; the comparison with
+			// the prediction tells whether that is right.
+		case <-time.After(watchdog):
+			return w.snapshot("Shutdown neither returned nor called Refresh")
+		}
+	}
+	select {
+	case <-retCh:
+	case <-time.After(watchdog):
+		return w.snapshot("Shutdown did not return")
+	}
+	if panicked {
+		return w.snapshot(fmt.Sprintf("Shutdown panicked: %v", pv))
+	}
+	releaseLoop()
 	// The pending timer goes off after Shutdown: keep offering the tick for
 	// the grace period.  A worker that observed done is gone and never takes
 	// it; taking it is a refresh cycle after Shutdown.
-	end := time.Now().Add(sc.Grace)
-	for spin := 0; time.Now().Before(end); spin++ {
-		if w.tryTick() {
-			// Definite.  Give the worker a moment to show what it does with it.
-			select {
-			case <-w.afterCh:
-			case <-time.After(300 * time.Millisecond):
-			}
-			break
-		}
-		pause(spin)
-	}
+	w.offerTicks(sc.Grace)
 	return w.snapshot("")
 }
 
@@ -482,6 +538,8 @@ func diffLogs(want, got []rwEvent) string {
 			return fmt.Sprintf("step %d: after Shutdown had returned the worker was still waiting on its timer and took the tick (a refresh cycle after Shutdown)", i)
 		case i >= len(want):
 			return fmt.Sprintf("step %d: observed %s after the predicted run was over", i, describe(got[i]))
+		case got[i].Ev == "tick" && want[i].Ev == "ret":
+			return fmt.Sprintf("step %d: while the final refresh was in flight (Shutdown called, not yet returned) the worker was still waiting on its timer and took the tick - the loop was not told to stop before the final refresh", i)
 		case want[i] != got[i]:
 			return fmt.Sprintf("step %d: predicted %s, observed %s", i, describe(want[i]), describe(got[i]))
 		}
@@ -490,7 +548,11 @@ func diffLogs(want, got []rwEvent) string {
 }
 
 func scenarioKey(sc rwScenario) string {
-	return fmt.Sprintf("RefreshWorker RefreshOnShutdown=%v mode=%s refreshes=[%s] final=%s", sc.ROS, sc.Mode,
+	mode := sc.Mode
+	if sc.Mode == "overlap" && sc.LoopFirst {
+		mode = "overlap(loop refresh released during the final refresh)"
+	}
+	return fmt.Sprintf("RefreshWorker RefreshOnShutdown=%v mode=%s refreshes=[%s] final=%s", sc.ROS, mode,
 		strings.Join(sc.LoopOuts, ","), sc.FinalOut)
 }
 
@@ -502,10 +564,7 @@ func replayRefresh(args []string) error {
 	if err != nil {
 		return err
 	}
-	grace := 15 * time.Millisecond
-	if vh.Tier() == "thorough" {
-		grace = 40 * time.Millisecond
-	}
+	grace, window := graceAndWindow()
 	rng := vh.Rand(181)
 	type job struct {
 		want []rwEvent
@@ -523,7 +582,7 @@ func replayRefresh(args []string) error {
 		if err != nil {
 			return err
 		}
-		sc.Grace = grace
+		sc.Grace, sc.Window = grace, window
 		sc.DurOf = randomDurations(rng.Uint64())
 		if len(sc.LoopOuts) > 0 || v.ROS {
 			dd.Add(raw)
@@ -585,16 +644,27 @@ func replayRefresh(args []string) error {
 	return res.Close(map[string]any{"replayed": len(jobs), "steps": steps, "hang_retries": hangs, "distinct_nontrivial": dd.N()})
 }
 
-// randomDurations returns distinct schedule answers: the k-th answer has k in
-// its nanoseconds; now and then an answer is exactly 0.
+// graceAndWindow: how long "must not happen" is watched after Shutdown has
+// returned, and how long the final refresh is held while ticks are offered.
+func graceAndWindow() (grace, window time.Duration) {
+	if vh.Tier() == "thorough" {
+		return 40 * time.Millisecond, 100 * time.Millisecond
+	}
+	return 15 * time.Millisecond, 50 * time.Millisecond
+}
+
+// randomDurations returns the schedule's answers: a different, strictly
+// growing duration for every UntilNext call (so that sleeping any earlier
+// answer is visible after every kind of step); now and then the first answer
+// is exactly 0.
 func randomDurations(seed uint64) func(int) time.Duration {
-	zeroAt := int(seed%11) + 1
+	base := time.Duration(seed%1000) * time.Millisecond
+	step := time.Duration(1+seed%7) * time.Second
 	return func(k int) time.Duration {
-		if k == zeroAt && seed%3 == 0 {
+		if k == 1 && seed%3 == 0 {
 			return 0
 		}
-		x := (seed ^ uint64(k)*0x9E3779B97F4A7C15) >> 40
-		return time.Duration(x%100000)*time.Millisecond + time.Duration(k)
+		return base + time.Duration(k)*step + time.Duration(k)
 	}
 }
 
@@ -618,10 +688,41 @@ func recordRefresh(args []string) error {
 		return err
 	}
 	rng := vh.Rand(182)
-	scs := make([]rwScenario, nh)
-	for h := range scs {
-		sc := rwScenario{ROS: rng.IntN(2) == 0, FinalOut: []string{"nil", "err"}[rng.IntN(2)], Grace: 10 * time.Millisecond,
-			DurOf: randomDurations(rng.Uint64())}
+	grace, window := graceAndWindow()
+	// Systematic block: every shutdown mode x RefreshOnShutdown x final
+	// outcome x 0..3 ticks with all-nil / last-failing / all-failing refreshes.
+	var scs []rwScenario
+	patterns := func(nt int) [][]string {
+		if nt == 0 {
+			return [][]string{nil}
+		}
+		allNil, lastErr, allErr := make([]string, nt), make([]string, nt), make([]string, nt)
+		for i := range allNil {
+			allNil[i], lastErr[i], allErr[i] = "nil", "nil", "err"
+		}
+		lastErr[nt-1] = "err"
+		return [][]string{allNil, lastErr, allErr}
+	}
+	type fin struct {
+		ros bool
+		out string
+	}
+	fins := []fin{{false, "nil"}, {true, "nil"}, {true, "err"}}
+	for _, f := range fins {
+		for nt := 0; nt <= 3; nt++ {
+			for _, outs := range patterns(nt) {
+				scs = append(scs, rwScenario{ROS: f.ros, FinalOut: f.out, LoopOuts: outs, Mode: "parked"})
+				if nt > 0 {
+					scs = append(scs, rwScenario{ROS: f.ros, FinalOut: f.out, LoopOuts: outs, Mode: "overlap", LoopFirst: true})
+					scs = append(scs, rwScenario{ROS: f.ros, FinalOut: f.out, LoopOuts: outs, Mode: "overlap"})
+				}
+			}
+		}
+		scs = append(scs, rwScenario{ROS: f.ros, FinalOut: f.out, Mode: "early"})
+	}
+	// Random block.
+	for h := 0; h < nh; h++ {
+		sc := rwScenario{ROS: rng.IntN(2) == 0, FinalOut: []string{"nil", "err"}[rng.IntN(2)], LoopFirst: rng.IntN(2) == 0}
 		nt := rng.IntN(41)
 		if h%5 == 0 {
 			nt = rng.IntN(4)
@@ -635,7 +736,7 @@ func recordRefresh(args []string) error {
 			sc.LoopOuts = append(sc.LoopOuts, o)
 		}
 		switch x := rng.IntN(10); {
-		case x < 6:
+		case x < 5:
 			sc.Mode = "parked"
 		case x < 8 && nt > 0:
 			sc.Mode = "overlap"
@@ -645,8 +746,13 @@ func recordRefresh(args []string) error {
 			sc.Mode = "early"
 			sc.LoopOuts = nil
 		}
-		scs[h] = sc
+		scs = append(scs, sc)
 	}
+	for h := range scs {
+		scs[h].Grace, scs[h].Window = grace, window
+		scs[h].DurOf = randomDurations(rng.Uint64())
+	}
+	nh = len(scs)
 	out := make([]rwResult, nh)
 	var wg sync.WaitGroup
 	sem := make(chan struct{}, 32)
